@@ -46,6 +46,31 @@ for d in sorted(glob.glob(os.path.join(V, 'seeded', '*'))):
     out.append('| `%s` | %s | %s | %s |' % (os.path.basename(d), m['property'], m.get('needs_to_manifest', '').replace('|', '/')[:260],
                                           m.get('caught_by', '').replace('|', '/')[:300]))
 out.append('')
+out.append('### 14.5 Per-property status (from the claim files and the latest evidence)\n')
+out.append('| id | level | spec dir(s) | what the latest quick run covered | build notes |')
+out.append('|---|---|---|---|---|')
+specdir = {'C01': 'system', 'C02': 'system', 'C03': 'isa', 'C04': 'decode', 'C05': 'cmdqueue (CmdQueueTime)', 'C06': 'isa', 'C07': 'regfile',
+           'C08': 'grid', 'C09': 'dispatch', 'C10': 'memalloc', 'C11': 'memcopy', 'C12': 'cmdqueue', 'C13': 'hsaco', 'C14': 'cusched',
+           'C15': 'rob', 'C16': 'at', 'C17': 'dram', 'C18': 'rdma + system', 'C19': 'pmc', 'C20': 'nvidia'}
+for i in range(1, 21):
+    pid = 'C%02d' % i
+    cp = os.path.join(V, 'checks', pid.lower() + '.claim.json')
+    if not os.path.exists(cp):
+        continue
+    c = json.load(open(cp))
+    cov = ''
+    ep = os.path.join(V, 'evidence', pid + '.json')
+    if os.path.exists(ep):
+        e = json.load(open(ep))['coverage']
+        bits = []
+        for key, lab in (('states', 'model states'), ('traces_validated_against_impl', 'real-code traces accepted'),
+                         ('evaluations', 'cases'), ('distinct_nontrivial', 'distinct non-trivial')):
+            if e.get(key):
+                bits.append('%s %s' % (e[key], lab))
+        cov = ', '.join(bits)
+    notes = 'design/%s.md' % pid + (', design/C18-system.md' if pid == 'C18' else '')
+    out.append('| %s | %s | spec/%s | %s | %s |' % (pid, c['category'], specdir.get(pid, ''), cov, notes))
+out.append('')
 text = '\n'.join(out)
 p = os.path.join(V, 'DESIGN.md')
 s = open(p).read()
